@@ -31,7 +31,7 @@ Section Batch.
 Variable S : Type.
 Variable step : S -> op -> res (S * active).
 Variable reach : S -> spec -> Prop.
-Hypothesis step_ok : forall st sp o, reach st sp -> sguard sp o -> sclean sp o ->
+Hypothesis step_ok : forall st sp o, reach st sp -> sguard sp o ->
   exists st' act, step st o = Ok (st', act) /\ reach st' (spec_step sp o).
 
 Lemma run_cb_ops_ok : forall snap cur ops st sp, reach st sp -> cb_ops_ok snap cur sp ops ->
@@ -39,8 +39,8 @@ Lemma run_cb_ops_ok : forall snap cur ops st sp, reach st sp -> cb_ops_ok snap c
 Proof.
   induction ops as [|o t IH]; intros st sp R H.
   - exists st. split; [reflexivity|exact R].
-  - destruct H as [LG [G [CL H]]]. cbn [run_cb_ops]. rewrite LG.
-    destruct (step_ok st sp o R G CL) as [st1 [act [E R1]]]. rewrite E. cbn [bind fst].
+  - destruct H as [LG [G H]]. cbn [run_cb_ops]. rewrite LG.
+    destruct (step_ok st sp o R G) as [st1 [act [E R1]]]. rewrite E. cbn [bind fst].
     destruct (IH st1 (spec_step sp o) R1 H) as [st' [E' R']]. exists st'. split; [exact E'|exact R'].
 Qed.
 
@@ -108,26 +108,26 @@ Lemma loop_guard_del_current : forall snap cur, loop_guard snap cur (Del cur) = 
 Proof. intros. cbn [loop_guard]. now rewrite Nat.eqb_refl. Qed.
 
 (* ---- instances ------------------------------------------------------------------------------------------ *)
-Lemma ep_step_reach : forall st sp o, reachE st sp -> sguard sp o -> sclean sp o ->
-  exists st' act, ep_step st o = Ok (st', act) /\ reachE st' (spec_step sp o).
+Lemma ep_step_reach : forall st sp o, reachEC st sp -> sguard sp o ->
+  exists st' act, ep_step_current st o = Ok (st', act) /\ reachEC st' (spec_step sp o).
 Proof.
-  intros st sp o R G CL. destruct (reachE_refines st sp R o) as [A _].
-  destruct (A G CL) as [st' [act [E [R' _]]]]. eauto.
+  intros st sp o R G. destruct (reachEC_refines st sp R o) as [A _].
+  destruct (A G) as [st' [act [E [R' _]]]]. eauto.
 Qed.
-Lemma pp_step_reach : forall st sp o, reachPC st sp -> sguard sp o -> sclean sp o ->
+Lemma pp_step_reach : forall st sp o, reachPC st sp -> sguard sp o ->
   exists st' act, pp_step_current st o = Ok (st', act) /\ reachPC st' (spec_step sp o).
 Proof.
-  intros st sp o R G CL. destruct (reachPC_refines st sp R o) as [A _].
-  destruct (A G CL) as [st' [act [E [R' _]]]]. eauto.
+  intros st sp o R G. destruct (reachPC_refines st sp R o) as [A _].
+  destruct (A G) as [st' [act [E [R' _]]]]. eauto.
 Qed.
 
-Lemma ep_poll_sound : forall st sp ready choice st' act, reachE st sp ->
-  ep_step st (Poll ready choice) = Ok (st', act) ->
-  reachE st' sp /\ forall c r, In (c, r) act -> spec_reports sp ready c r.
+Lemma ep_poll_sound : forall st sp ready choice st' act, reachEC st sp ->
+  ep_step_current st (Poll ready choice) = Ok (st', act) ->
+  reachEC st' sp /\ forall c r, In (c, r) act -> spec_reports sp ready c r.
 Proof.
   intros st sp ready choice st' act R E.
-  destruct (reachE_refines st sp R (Poll ready choice)) as [A _].
-  destruct (A Logic.I Logic.I) as [st2 [act2 [E2 [R2 [_ [IFF [_ [[rest HP] _]]]]]]]].
+  destruct (reachEC_refines st sp R (Poll ready choice)) as [A _].
+  destruct (A Logic.I) as [st2 [act2 [E2 [R2 [_ [IFF [_ [[rest HP] _]]]]]]]].
   rewrite E in E2. injection E2 as <- <-. split; [exact R2|].
   intros c r HI. apply IFF. eapply Permutation_in; [apply Permutation_sym; exact HP|]. apply in_or_app. now left.
 Qed.
@@ -137,23 +137,23 @@ Lemma pp_poll_sound : forall st sp ready choice st' act, reachPC st sp ->
 Proof.
   intros st sp ready choice st' act R E.
   destruct (reachPC_refines st sp R (Poll ready choice)) as [A _].
-  destruct (A Logic.I Logic.I) as [st2 [act2 [E2 [R2 [_ IFF]]]]].
+  destruct (A Logic.I) as [st2 [act2 [E2 [R2 [_ IFF]]]]].
   rewrite E in E2. injection E2 as <- <-. split; [exact R2|exact IFF].
 Qed.
 
 (* C09_stale_within_batch, epoll *)
 Lemma stale_within_batch_E : forall h runs st sp ready choice st1 act,
-  reachE st sp -> ep_step st (Poll ready choice) = Ok (st1, act) ->
+  reachEC st sp -> ep_step_current st (Poll ready choice) = Ok (st1, act) ->
   batch_ok h (map fst act) sp (callbacks_g runs act) ->
   exists st', ep_loop_iter h runs st ready choice = Ok (st', act, callbacks_g runs act) /\
-    reachE st' (spec_run sp (batch_ops h (callbacks_g runs act))) /\
+    reachEC st' (spec_run sp (batch_ops h (callbacks_g runs act))) /\
     (forall c r, In (c, r) act -> spec_reports sp ready c r) /\
-    (forall ready' choice' st'' act', ep_step st' (Poll ready' choice') = Ok (st'', act') ->
+    (forall ready' choice' st'' act', ep_step_current st' (Poll ready' choice') = Ok (st'', act') ->
        forall c r, In (c, r) act' -> spec_reports (spec_run sp (batch_ops h (callbacks_g runs act))) ready' c r).
 Proof.
   intros h runs st sp ready choice st1 act R E H.
   destruct (ep_poll_sound _ _ _ _ _ _ R E) as [R1 SND].
-  destruct (loop_iter_ok ep ep_step reachE ep_step_reach h runs st sp ready choice st1 act E R1 H) as [st' [E' R']].
+  destruct (loop_iter_ok ep ep_step_current reachEC ep_step_reach h runs st sp ready choice st1 act E R1 H) as [st' [E' R']].
   exists st'. split; [exact E'|]. split; [exact R'|]. split; [exact SND|].
   intros ready' choice' st'' act' E2. apply (ep_poll_sound _ _ _ _ _ _ R' E2).
 Qed.
@@ -344,7 +344,7 @@ Section Wake.
 Variable S : Type.
 Variable step : S -> op -> res (S * active).
 Variable reach : S -> spec -> Prop.
-Hypothesis step_ok : forall st sp o, reach st sp -> sguard sp o -> sclean sp o ->
+Hypothesis step_ok : forall st sp o, reach st sp -> sguard sp o ->
   exists st' act, step st o = Ok (st', act) /\ reach st' (spec_step sp o).
 Hypothesis poll_sound : forall st sp ready choice st' act, reach st sp ->
   step st (Poll ready choice) = Ok (st', act) ->
@@ -503,9 +503,9 @@ Qed.
 End Wake.
 
 (* ---- instances ------------------------------------------------------------------------------------------ *)
-Lemma reachE_unique : forall st sp, reachE st sp -> spec_unique sp.
+Lemma reachE_unique : forall st sp, reachEC st sp -> spec_unique sp.
 Proof.
-  intros st sp R c1 c2 s1 s2 A B C D F. apply (reg_unique st sp c1 c2 s1 s2 (reachE_inv _ _ R)); assumption.
+  intros st sp R c1 c2 s1 s2 A B C D F. apply (reg_unique st sp c1 c2 s1 s2 (reachEC_inv _ _ R)); assumption.
 Qed.
 Lemma reachPC_unique : forall st sp, reachPC st sp -> spec_unique sp.
 Proof.
@@ -515,13 +515,13 @@ Qed.
 Lemma two_le_init_cap : 2 <= kInitEventListSize.
 Proof. vm_compute. lia. Qed.
 
-Lemma ep_poll_complete_small : forall st sp ready choice, reachE st sp ->
+Lemma ep_poll_complete_small : forall st sp ready choice, reachEC st sp ->
   (forall l : active, NoDup (map fst l) -> (forall c r, In (c, r) l -> spec_reports sp ready c r) -> length l <= 2) ->
-  exists st' act, ep_step st (Poll ready choice) = Ok (st', act) /\
+  exists st' act, ep_step_current st (Poll ready choice) = Ok (st', act) /\
     forall c r, spec_reports sp ready c r -> In (c, r) act.
 Proof.
-  intros st sp ready choice R SM. pose proof (reachE_inv _ _ R) as I.
-  destruct (ep_poll_ok st sp ready choice I) as [act [rest [E [HP HL]]]].
+  intros st sp ready choice R SM. pose proof (reachEC_inv _ _ R) as I. rewrite ep_step_current_eq.
+  destruct (ep_poll_ok true st sp ready choice I) as [act [rest [E [HP HL]]]].
   assert (LF : length (ep_full st ready) <= 2).
   { apply SM; [eapply ep_full_nodup; eauto|]. intros c r HI. now apply (ep_full_in st sp ready c r I). }
   pose proof (ie_capmin _ _ I) as CM. pose proof two_le_init_cap as T.
@@ -537,7 +537,7 @@ Lemma pp_poll_complete_small : forall st sp ready choice, reachPC st sp ->
     forall c r, spec_reports sp ready c r -> In (c, r) act.
 Proof.
   intros st sp ready choice R _. destruct (reachPC_refines st sp R (Poll ready choice)) as [A _].
-  destruct (A Logic.I Logic.I) as [st' [act [E [_ [_ IFF]]]]].
+  destruct (A Logic.I) as [st' [act [E [_ [_ IFF]]]]].
   exists st', act. split; [exact E|]. intros c r. apply IFF.
 Qed.
 Lemma pp_poll_sound' : forall st sp ready choice st' act, reachPC st sp ->
@@ -565,18 +565,18 @@ Proof. reflexivity. Qed.
 Definition effects_current (wc tc : nat) (user : nat -> cb -> kenv -> kenv) :=
   loop_effects wake_rd_current timer_rd_current wc tc user.
 
-Lemma ep_full_nil : forall st sp ready, reachE st sp -> (forall c r, ~ spec_reports sp ready c r) -> ep_full st ready = [].
+Lemma ep_full_nil : forall st sp ready, reachEC st sp -> (forall c r, ~ spec_reports sp ready c r) -> ep_full st ready = [].
 Proof.
   intros st sp ready R H. destruct (ep_full st ready) as [|[c r] t] eqn:E; [reflexivity|].
-  exfalso. apply (H c r). apply (ep_full_in st sp ready c r (reachE_inv _ _ R)). rewrite E. now left.
+  exfalso. apply (H c r). apply (ep_full_in st sp ready c r (reachEC_inv _ _ R)). rewrite E. now left.
 Qed.
 
 Lemma wakeup_drained_E : forall h runs user wc tc wfd tfd st sp e choice,
-  reachE st sp -> loop_channels sp wc tc wfd tfd -> others_quiet sp wc tc e ->
+  reachEC st sp -> loop_channels sp wc tc wfd tfd -> others_quiet sp wc tc e ->
   runs wc = true -> runs tc = true -> (forall k, h wc k = []) -> (forall k, h tc k = []) ->
   exists st' act e',
-    loop_iter_env ep ep_step h runs (effects_current wc tc user) wfd tfd st e choice = Ok (st', act, callbacks_g runs act, e') /\
-    reachE st' sp /\
+    loop_iter_env ep ep_step_current h runs (effects_current wc tc user) wfd tfd st e choice = Ok (st', act, callbacks_g runs act, e') /\
+    reachEC st' sp /\
     (forall c r, In (c, r) act <->
        (c = wc /\ (0 < k_wake e)%N /\ r = POLLIN) \/ (c = tc /\ (0 < k_texp e)%N /\ r = POLLIN)) /\
     (forall ck, In ck (callbacks_g runs act) <->
@@ -584,10 +584,10 @@ Lemma wakeup_drained_E : forall h runs user wc tc wfd tfd st sp e choice,
     k_wake e' = 0%N /\ k_texp e' = 0%N /\ k_rd e' = k_rd e /\
     (* nothing for epoll_wait to return: it blocks until its time-out or a new event, in this and in
        every later state with the same interest map *)
-    (forall st2, reachE st2 sp -> ep_full st2 (env_ready wfd tfd e') = []).
+    (forall st2, reachEC st2 sp -> ep_full st2 (env_ready wfd tfd e') = []).
 Proof.
   intros h runs user wc tc wfd tfd st sp e choice R LC Q RW RT HW HT.
-  destruct (wakeup_drained_gen ep ep_step reachE ep_step_reach ep_poll_sound ep_poll_complete_small reachE_unique
+  destruct (wakeup_drained_gen ep ep_step_current reachEC ep_step_reach ep_poll_sound ep_poll_complete_small reachE_unique
               _ _ _ _ _ h runs user wc tc wfd tfd st sp e choice R LC Q RW RT HW HT wake_drains_current timer_drains_current)
     as [st' [act [e' [E [R' [A [L [KW [KT [KR NR]]]]]]]]]].
   exists st', act, e'. split; [exact E|]. split; [exact R'|]. split; [exact A|]. split; [exact L|].
@@ -615,25 +615,25 @@ Proof.
   exists st', act, e'. split; [exact E|]. split; [exact R'|]. split; [exact A|]. split; [exact L|].
   split; [exact KW|]. split; [exact KT|]. split; [exact KR|].
   intros st2 choice2 R2. destruct (reachPC_refines st2 sp R2 (Poll (env_ready wfd tfd e') choice2)) as [B _].
-  destruct (B Logic.I Logic.I) as [st3 [act3 [E3 [_ [-> IFF]]]]]. rewrite E3. f_equal. f_equal.
+  destruct (B Logic.I) as [st3 [act3 [E3 [_ [-> IFF]]]]]. rewrite E3. f_equal. f_equal.
   destruct act3 as [|[c r] t]; [reflexivity|]. exfalso. apply (NR c r). apply IFF. now left.
 Qed.
 
 (* without the read in EventLoop::handleRead the wake-up channel stays reportable: the loop spins *)
 Lemma wakeup_undrained_spins_E : forall h runs user sem sz wc tc wfd tfd st sp e choice,
-  reachE st sp -> loop_channels sp wc tc wfd tfd -> others_quiet sp wc tc e ->
+  reachEC st sp -> loop_channels sp wc tc wfd tfd -> others_quiet sp wc tc e ->
   runs wc = true -> runs tc = true -> (forall k, h wc k = []) -> (forall k, h tc k = []) ->
   (0 < k_wake e)%N ->
   exists st' act e',
-    loop_iter_env ep ep_step h runs (loop_effects (handleRead_env false sem sz) timer_rd_current wc tc user)
+    loop_iter_env ep ep_step_current h runs (loop_effects (handleRead_env false sem sz) timer_rd_current wc tc user)
       wfd tfd st e choice = Ok (st', act, callbacks_g runs act, e') /\
-    reachE st' sp /\ In (wc, POLLIN) act /\ k_wake e' = k_wake e /\
+    reachEC st' sp /\ In (wc, POLLIN) act /\ k_wake e' = k_wake e /\
     In (wc, POLLIN) (ep_full st' (env_ready wfd tfd e')).
 Proof.
   intros h runs user sem sz wc tc wfd tfd st sp e choice R LC Q RW RT HW HT L.
-  destruct (wakeup_undrained_gen ep ep_step reachE ep_step_reach ep_poll_sound ep_poll_complete_small reachE_unique
+  destruct (wakeup_undrained_gen ep ep_step_current reachEC ep_step_reach ep_poll_sound ep_poll_complete_small reachE_unique
               false sem sz TimerQueue_handleRead_reads_timerfd TimerQueue_readTimerfd_read_size h runs user wc tc wfd tfd st sp e choice R LC Q RW RT HW HT eq_refl L)
     as [st' [act [e' [E [R' [A [KW SR]]]]]]].
   exists st', act, e'. split; [exact E|]. split; [exact R'|]. split; [exact A|]. split; [exact KW|].
-  now apply (ep_full_in st' sp _ wc POLLIN (reachE_inv _ _ R')).
+  now apply (ep_full_in st' sp _ wc POLLIN (reachEC_inv _ _ R')).
 Qed.
